@@ -401,7 +401,7 @@ Proof.
 Qed.
 
 (* ------------------------------------------------------------------ *)
-(* the sorted view of the repaired code, up to spelling                *)
+(* the sorted view of the code as it is (mode Fx), up to spelling      *)
 (* ------------------------------------------------------------------ *)
 
 Definition ckeyed (cs : list cview) : list (str * cview) := map (fun c => (ckey c, c)) cs.
@@ -428,7 +428,7 @@ Proof.
   - apply arrange_pairs_perm.
 Qed.
 
-(* the second (canonical) pass of the repaired code, seen through [canon] *)
+(* the second (canonical) pass (fix commit 7597eca), seen through [canon] *)
 Lemma canon_arrange_pairs qs :
   map (fun p => canon (snd p)) (arrange_pairs (newkey Fx) qs)
   = carrange (map (fun p => canon (snd p)) qs).
@@ -545,7 +545,7 @@ Proof.
   - apply (forallb_wfc_csv l H).
 Qed.
 
-(* MAIN LEMMA: the repaired sorted view is a canonical form for sibling order *)
+(* MAIN LEMMA: the sorted view (mode Fx) is a canonical form for sibling order *)
 Lemma csv_perm_mut :
   (forall t t', PermTree t t' -> wft t = true -> wft t' = true /\ csv t = csv t') /\
   (forall l l', PermForest l l' -> forallb wft l = true ->
